@@ -79,10 +79,10 @@ func c18(c *q.Ctx) {
 		}
 	}
 	if fn := c.Fn(st + "(*State).GetTipSnapshot"); fn != nil {
-		c.ReturnIs(fn, 0, []string{"state.(*State).CreateSnapshot(p0,p0.latestBlockid)#0"}, "the tip reader is always a snapshot at the latest confirmed block, never the live model (which shows pending writes the moment one is admitted)")
+		c.ReturnIs(fn, 0, []string{"state.(*State).CreateSnapshot(p0,p0.latestBlockid)#0 OR xmodel.(*XModel).CreateSnapshot(p0.xmodel,p0.latestBlockid)#0"}, "the tip reader is always a snapshot at the latest confirmed block, never the live model (which shows pending writes the moment one is admitted)")
 	}
 	if fn := c.Fn(st + "(*State).GetTipXMSnapshotReader"); fn != nil {
-		c.ReturnIs(fn, 0, []string{"state.(*State).CreateXMSnapshotReader(p0,p0.latestBlockid)#0"}, "the tip byte reader is always a snapshot at the latest confirmed block")
+		c.ReturnIs(fn, 0, []string{"state.(*State).CreateXMSnapshotReader(p0,p0.latestBlockid)#0 OR xmodel.(*XModel).CreateXMSnapshotReader(p0.xmodel,p0.latestBlockid)#0"}, "the tip byte reader is always a snapshot at the latest confirmed block")
 	}
 	// who hands out the live model as a reader: the explicit live-reader constructor only
 	nLive := 0
